@@ -563,7 +563,8 @@ type LoggerModel struct {
 	Sampler *samplerModel
 	Stack   bool
 	Ctx     string
-	Dest    int // index of destination writer (0 = root)
+	Dest    int  // index of destination writer (0 = root)
+	Dead    bool // obtained from a context that refused to store a Disabled logger: the package's no-op logger
 }
 
 type samplerModel struct {
@@ -633,6 +634,12 @@ func (m Model) ApplyStep(par *LoggerModel, stp Step, ndest *int) *LoggerModel {
 		l.Hooks = hs
 	case "level":
 		l.Level = stp.Level
+	case "viactx":
+		// *zerolog.Ctx(l.WithContext(ctx)): a struct copy of l — except that a Disabled logger is not
+		// stored in a context that carries none, and Ctx then returns the package's no-op logger
+		if l.Level == 7 && stp.N == 0 {
+			l.Dead = true
+		}
 	case "sample":
 		l.Sampler = &samplerModel{kind: stp.Sampler, n: stp.N}
 	case "output":
@@ -684,7 +691,7 @@ func (m Model) Event(l *LoggerModel, ev EventSpec) ExpEvent {
 	out := ExpEvent{Level: lvl}
 	// WithLevel(Disabled) is never written; below the logger level; below the
 	// global level (TraceLevel during program runs)
-	if lvl == 7 || lvl < l.Level || lvl < -1 {
+	if lvl == 7 || lvl < l.Level || lvl < -1 || l.Dead {
 		return out
 	}
 	if l.Sampler != nil && !l.Sampler.sample() {
